@@ -12,6 +12,7 @@ def main() -> int:
         spec = json.load(f)
     mod = importlib.import_module(f"vf.checks.{check}")
     rec = harness.Rec()
+    rec._out = op  # enables rec.checkpoint()
     try:
         if "_replay" in spec:
             mod.replay(spec["_replay"], rec)
